@@ -381,6 +381,40 @@ pub fn run(tier: Tier) -> i32 {
     reduced.par_iter().for_each(|c| check_case(&cx, "ATtiny20", Core::Reduced, true, c));
     // a Tiny1x device: nothing unencodable may slip through there either
     full.par_iter().for_each(|c| check_case(&cx, "ATtiny11", Core::Full, false, c));
+    // relative jumps and branches on devices whose flash a 12-bit displacement spans
+    for dev in ["ATmega8", "ATtiny13", "ATtiny45"] {
+        full.par_iter().filter(|c| icase::is_relative(c.ic.mnem)).for_each(|c| check_case(&cx, dev, Core::Full, false, c));
+    }
+    // the rejected line is not the last thing in the program: other segments follow it
+    let n_followed = AtomicU64::new(0);
+    full.par_iter().filter(|c| !c.uses_alias).for_each(|c| {
+        if isa::encode(Core::Full, c.ic.mnem, &c.ic.ops).is_some() || sibling(Core::Full, &c.ic).is_some() {
+            return;
+        }
+        // (numeric windows are thinned: every 7th value; all other categories in full)
+        if c.cat == "numeric" {
+            let mut h = 0u64;
+            for b in c.text.bytes() {
+                h = h.wrapping_mul(131).wrapping_add(b as u64);
+            }
+            if h % 7 != 0 {
+                return;
+            }
+        }
+        for (si, suffix) in [".org 0x40\nnop\n", ".eseg\n.db 1\n", ".dseg\n.byte 1\n.cseg\nnop\n", ".cseg\n.org 0x20\n.dw 1\n"].iter().enumerate() {
+            let src = format!("{}\n{}", c.text, suffix);
+            let o = sut::build_str(&src);
+            cx.evals.fetch_add(1, Ordering::Relaxed);
+            n_followed.fetch_add(1, Ordering::Relaxed);
+            if let Outcome::Ok(b) = &o {
+                cx.rep.violation(
+                    &format!("C04/accepted-when-followed-by-another-segment/mnem={}/cat={}/suffix={}", c.ic.mnem, c.cat, si),
+                    || format!("`{}` cannot be encoded by the ISA, but followed by `{}` the program assembles to {}", c.text, suffix.replace('\n', " / "), sut::hex_trunc(&b.code, 24)),
+                    || json!({"kind": "build_str", "source": src, "expected": {"result": "err (any text)"}, "observed": o.to_json()}),
+                );
+            }
+        }
+    });
 
     let mnems: BTreeSet<&str> = full.iter().map(|c| c.ic.mnem).collect();
     rep.guard(mnems.len() >= 110, "fewer than 110 mnemonics enumerated");
@@ -401,13 +435,14 @@ pub fn run(tier: Tier) -> i32 {
     let coverage = cov(json!({
         "evaluations": cx.evals.load(Ordering::Relaxed),
         "distinct_nontrivial": must_reject_full,
-        "rule": "per mnemonic: a few legal base tuples; each register position x r0..r31 (+ .def alias); each numeric field x a window beyond both ends of its legal range + extremes up to +-(2^63-1); each position x each operand kind (register, 9 pointer forms, displacement forms, number); operand counts 0..3; run one per build on no device, ATtiny20 (reduced core) and ATtiny11. distinct_nontrivial = distinct source lines (no device) that the reference says must be rejected; evaluations counts all builds",
+        "rule": "per mnemonic: a few legal base tuples; each register position x r0..r31 (+ .def alias); each numeric field x a window beyond both ends of its legal range + extremes up to +-(2^63-1); each position x each operand kind (register, 9 pointer forms, displacement forms, number); operand counts 0..3; run one per build on no device, ATtiny20 (reduced core) and ATtiny11; relative jumps/branches also on ATmega8, ATtiny13, ATtiny45; every must-reject line (numeric windows thinned to every 7th value) also followed by each of four other segments (.org+code, .eseg data, .dseg+.cseg, .cseg+.org+data). distinct_nontrivial = distinct source lines (no device) that the reference says must be rejected; evaluations counts all builds",
         "exhaustive": true,
         "distinct_cases_full_core": distinct_full,
         "cases_reduced_core_specific": reduced.len(),
         "categories": cats,
         "mnemonics": mnems.len(),
         "outcomes": {"ok": cx.ok_seen.load(Ordering::Relaxed), "err": cx.err_seen.load(Ordering::Relaxed), "panic_left_to_C16": cx.panic_seen.load(Ordering::Relaxed)},
+        "must_reject_lines_followed_by_another_segment": n_followed.load(Ordering::Relaxed),
         "lenient_sibling_form_accepted": cx.lenient_used.load(Ordering::Relaxed),
         "caps_hit": [],
         "trusted_base": ["harness isa::encode (self-checked against isa::decode over 2^16 opcodes)"],
